@@ -1,8 +1,8 @@
+//go:build !nooverlay
+
 package main
 
 import "github.com/richardwilkes/toolbox/notifier"
 
-// dump uses the white-box accessor injected by go/overlay/c17_notifier_dump.go.
-func dump(w *world, n int) string {
-	return w.ns[n].VerifDump(func(t notifier.Target) int { return w.ids[t] })
-}
+// wbDump uses the white-box accessor injected by go/overlay/c17_notifier_dump.go ("" = representation not recognised).
+func wbDump(n *notifier.Notifier, idOf func(notifier.Target) int) string { return n.VerifDump(idOf) }
